@@ -69,10 +69,49 @@ def opQuery (env : Env) (s df : Bytes) : String :=
   | .ok e =>
     let fS := outStr ptStr (e.string env.isPrint)
     let fG := outStr ptStr (e.goString env.isPrint)
+    let fJ := outStr toHex (marshalExpr e)
     let fPG := outStr toHex (render pgFns e)
     let fPP := outStr (fun (x : Bytes × List Prim) => toHex x.1 ++ "|" ++ canonParams x.2) (renderParam pgFns e)
-    "\t".intercalate [fP, fS, fG, fPG, fPP]
-  | _ => "\t".intercalate [fP, "-", "-", (if p.isPanic then "panic" else "err"), (if p.isPanic then "panic" else "err")]
+    "\t".intercalate [fP, fS, fG, fPG, fPP, fJ]
+  | _ => "\t".intercalate [fP, "-", "-", (if p.isPanic then "panic" else "err"), (if p.isPanic then "panic" else "err"), "-"]
+
+/-- op `uj`: json.Unmarshal of arbitrary bytes, then Validate and every consumer of the decoded expression -/
+def opUnjson (env : Env) (data : Bytes) : String :=
+  let u := unmarshalTop data
+  let fU := outStr canonExpr u
+  match u with
+  | .ok e =>
+    let fV := if validateExpr e then "1" else "0"
+    let fS := outStr ptStr (e.string env.isPrint)
+    let fG := outStr ptStr (e.goString env.isPrint)
+    let fJ := outStr toHex (marshalExpr e)
+    let fR := outStr toHex (render pgFns e)
+    let fRP := outStr (fun (x : Bytes × List Prim) => toHex x.1 ++ "|" ++ canonParams x.2) (renderParam pgFns e)
+    "\t".intercalate [fU, fV, fS, fG, fJ, fR, fRP]
+  | _ => "\t".intercalate [fU, "-", "-", "-", "-", "-", "-"]
+
+/-- the tracing render function of the `render` op: records operator and both operand texts -/
+def traceFn (o : Op) : RenderFn := fun l r =>
+  .ok (b "<" ++ fmtInt o.num ++ b "|" ++ l ++ b "|" ++ r ++ b ">")
+
+/-- described function maps (the Go harness builds the same maps from the same descriptions) -/
+def describedFns (desc : String) : Option Fns :=
+  match desc.splitOn ":" with
+  | ["pg"] => some pgFns
+  | ["shared"] => some sharedFns
+  | ["trace"] => some (fun o => some (traceFn o))
+  | ["trace-minus", n] => (n.toNat? >>= Op.ofNum).map (fun x => fun o => if o = x then none else some (traceFn o))
+  | ["override", n] => (n.toNat? >>= Op.ofNum).map (fun x => fun o => if o = x then some (traceFn o) else pgFns o)
+  | ["fail", n] => (n.toNat? >>= Op.ofNum).map (fun x => fun o => if o = x then some (fun _ _ => .err) else some (traceFn o))
+  | _ => none
+
+/-- op `render`: Base{RenderFNs: m}.Render(tree) and RenderParam(tree) for a described map -/
+def opRender (desc tree : String) : String :=
+  match describedFns desc, parseCanonExpr tree with
+  | some fns, some e =>
+    outStr toHex (render fns e) ++ "\t" ++
+      outStr (fun (x : Bytes × List Prim) => toHex x.1 ++ "|" ++ canonParams x.2) (renderParam fns e)
+  | _, _ => "bad-input"
 
 /-- op `lex`: the token stream -/
 def opLex (env : Env) (s : Bytes) : String :=
@@ -84,6 +123,8 @@ def handle (env : Env) (line : String) : String :=
   match line.splitOn "\t" with
   | ["q", s, df] => opQuery env (hexOr s) (hexOr df)
   | ["lex", s] => opLex env (hexOr s)
+  | ["uj", d] => opUnjson env (hexOr d)
+  | ["render", desc, tree] => opRender desc tree
   | ["ping"] => "pong"
   | _ => "bad-op"
 
